@@ -129,6 +129,11 @@ var curated = []string{
 	"T | project a, a, b = a, a = b",
 	"T | extend x = 1, y = 2 | extend x = y, y = x",
 	"T | where x in (1, 2, 3) and y in ('a', 'b') or n in (x, y)",
+	// several stages that each fail at compile time (which error is reported?)
+	"T | where not() | project a = strcat() | project b = isnull() | count",
+	"T | where a == 1 | extend x = now(1) | where iif(a) | summarize count(1) by k",
+	"T | join (U | where not(1, 2)) on k | where tolower() == 'x' | project toupper(a, b)",
+	"let x = 1; T | where isnotnull() | where x == 1 | extend y = countif() | where $left.a == 1",
 	// long pipelines: dozens of sub-queries
 	"T" + strings.Repeat(" | where a > 1", 20),
 	"T" + strings.Repeat(" | where a > 1 | project a, b | extend c = a + b", 9),
